@@ -25,7 +25,8 @@ WRAP = "Optional[Union[{output_param}, str]]"
 def gen_class(rng, name):
     lines = ["class %s(object):" % name]
     attrs = []
-    for a in rng.sample(ATTRS, rng.randint(1, 4)):
+    # (now and then an attribute is called like a parameter of the methods: `lr: float = 0.1` next to `def __init__(self, lr=...)`)
+    for a in rng.sample(ATTRS + PARAMS[:2] * (1 if rng.random() < 0.3 else 0), rng.randint(1, 4)):
         t = rng.choice(ANNS)
         if rng.random() < 0.7:
             lines.append("    %s: %s = %s" % (a, t, rng.choice(VALS[t])))
